@@ -125,28 +125,37 @@ static const char *kElem = "TC";
 #endif
 typedef T::size_type SZ;
 
-// single pass input iterator over an int array
+// single pass input iterator over an array, with the semantics of std::istream_iterator: all copies share ONE position
+// (advancing any copy consumes the source for all of them), each iterator object keeps designating the element it read
+struct InShared {
+  const E *base;
+  size_t pos, n;
+};
 struct InIt {
   typedef std::input_iterator_tag iterator_category;
   typedef E value_type;
   typedef std::ptrdiff_t difference_type;
   typedef const E *pointer;
   typedef const E &reference;
-  const E *p;
-  explicit InIt(const E *q) : p(q) {}
-  reference operator*() const { return *p; }
-  pointer operator->() const { return p; }
+  InShared *s;
+  const E *val;
+  bool end;
+  InIt(InShared *sh, bool e) : s(sh), val(sh->base + (sh->pos < sh->n ? sh->pos : 0)), end(e) {}
+  reference operator*() const { return *val; }
+  pointer operator->() const { return val; }
   InIt &operator++() {
-    ++p;
+    ++s->pos;
+    val = s->base + (s->pos < s->n ? s->pos : 0);
     return *this;
   }
   InIt operator++(int) {
     InIt t(*this);
-    ++p;
+    ++*this;
     return t;
   }
-  friend bool operator==(InIt a, InIt b) { return a.p == b.p; }
-  friend bool operator!=(InIt a, InIt b) { return a.p != b.p; }
+  bool atEnd() const { return end || s->pos >= s->n; }
+  friend bool operator==(const InIt &a, const InIt &b) { return a.atEnd() == b.atEnd(); }
+  friend bool operator!=(const InIt &a, const InIt &b) { return a.atEnd() != b.atEnd(); }
 };
 
 struct Label {
@@ -191,6 +200,8 @@ static void exec(const Label &lb, Result &r) {
   for (size_t i = 0; i < lb.vs.size(); ++i) src.push_back(E(lb.vs[i]));
   const E *sb = src.empty() ? static_cast<const E *>(0) : &src[0];
   const E *se = sb + src.size();
+  static const E kNone(0);
+  InShared ish = {sb ? sb : &kNone, 0, src.size()};
   bool input = lb.it == "input";
   if (op.compare(0, 4, "ctor") == 0) {
     void *w = fresh();
@@ -202,7 +213,7 @@ static void exec(const Label &lb, Result &r) {
       else if (op == "ctorCountVal")
         g_slot[c] = new (w) T(static_cast<SZ>(lb.n), E(lb.v));
       else if (op == "ctorRange")
-        g_slot[c] = input ? new (w) T(InIt(sb), InIt(se)) : new (w) T(sb, se);
+        g_slot[c] = input ? new (w) T(InIt(&ish, false), InIt(&ish, true)) : new (w) T(sb, se);
       else if (op == "ctorIlist") {
         if (src.size() == 0)
           g_slot[c] = new (w) T(std::initializer_list<E>());
@@ -277,7 +288,7 @@ static void exec(const Label &lb, Result &r) {
     v.assign(static_cast<SZ>(lb.n), *arg);
   } else if (op == "assignRange") {
     if (input)
-      v.assign(InIt(sb), InIt(se));
+      v.assign(InIt(&ish, false), InIt(&ish, true));
     else
       v.assign(sb, se);
   } else if (op == "insert1") {
@@ -299,7 +310,7 @@ static void exec(const Label &lb, Result &r) {
     T::iterator it = v.insert(v.begin() + lb.pos, static_cast<SZ>(lb.n), *arg);
     r.idx(it - v.begin());
   } else if (op == "insertRange") {
-    T::iterator it = input ? v.insert(v.begin() + lb.pos, InIt(sb), InIt(se)) : v.insert(v.begin() + lb.pos, sb, se);
+    T::iterator it = input ? v.insert(v.begin() + lb.pos, InIt(&ish, false), InIt(&ish, true)) : v.insert(v.begin() + lb.pos, sb, se);
     r.idx(it - v.begin());
   } else if (op == "insertIlist") {
     T::iterator it;
@@ -375,7 +386,7 @@ static void exec(const Label &lb, Result &r) {
     v.append(static_cast<SZ>(lb.n), *arg);
   } else if (op == "appendRange") {
     if (input)
-      v.append(InIt(sb), InIt(se));
+      v.append(InIt(&ish, false), InIt(&ish, true));
     else
       v.append(sb, se);
   } else if (op == "appendIlist") {
